@@ -18,7 +18,9 @@ Definition is_true (v:aval) : bool := match v with ABool true => true | _ => fal
 
 (* ---------- scope_extract.__phil_join__(self, other): the new __dict__ of self.
    [other] is consumed structurally; scope_extract_list and Auto have a __dict__ without parameter
-   entries (joining them changes nothing), every other non-extract has none (AttributeError). *)
+   entries (joining them changes nothing), every other non-extract has none (AttributeError).
+   A None in [other] (the placeholder of a disabled object in a later block) leaves a scope_extract or a
+   scope_extract_list of [self] alone. *)
 Definition not_none (v:pyval) : bool := match v with VNone => false | _ => true end.
 Definition drop_leading_none (l:list pyval) : list pyval :=          (* if len > 1 and l[0] is None: del l[0] *)
   match l with VNone :: (_ :: _) as r => r | _ => l end.
@@ -35,11 +37,13 @@ Fixpoint join_ext (other:ext) (self:fields_t) {struct other} : res fields_t :=
          | None | Some VNone => go r (fset key ov self)
          | Some (VScopeList o sl) =>
              match ov with
+             | VNone => go r self                           (* placeholder of a disabled object in a later block: ignored *)
              | VScopeList _ ol => go r (fset key (VScopeList o (drop_leading_none (sl ++ filter not_none ol))) self)
              | _ => Crash (s_ "AssertionError")
              end
          | Some (VScope (Ext n sf)) =>
              match ov with
+             | VNone => go r self                           (* likewise *)
              | VScope oe => do sf' <- join_ext oe sf; go r (fset key (VScope (Ext n sf')) self)
              | VScopeList _ _ | VAuto => go r self
              | _ => Crash (s_ "AttributeError")            (* other_value.__dict__ *)
@@ -378,11 +382,11 @@ Fixpoint ajoin_s (o:shp) (self:sfields) {struct o} : option sfields :=
              if Parser.reserved key then go r self else
              match aget key self with
              | None | Some HFlat | Some HNone => go r (aset key os self)
-             | Some HSList => match os with HSList => go r self | _ => None end
+             | Some HSList => match os with HSList | HNone => go r self | _ => None end
              | Some (HScope sf0) =>
                  match os with
                  | HScope _ => match ajoin_s os sf0 with Some sf1 => go r (aset key (HScope sf1) self) | None => None end
-                 | HSList => go r self
+                 | HSList | HNone => go r self
                  | _ => None
                  end
              end
